@@ -45,18 +45,25 @@ from ..ast.fpyast import (
     AnyOf,
     Assign,
     BoolVal,
+    Compare,
     Expr,
     ForStmt,
     FuncDef,
     IfExpr,
     ListComp,
+    NamedId,
+    NaryOp,
+    Not,
     Or,
+    RationalVal,
     Stmt,
     StmtBlock,
     Var,
+    WhileStmt,
 )
 from ..ast.visitor import DefaultTransformVisitor
 from ..utils import Gensym
+from .rename_target import RenameTarget
 
 
 @dataclasses.dataclass
@@ -66,10 +73,30 @@ class _Ctx:
     ``ctx`` of ``None`` instead of a ``_Ctx`` marks a position with no
     statement slot to hoist into, suppressing fusion there."""
     stmts: list[Stmt]
+    conditional: bool = False
+    """the position is evaluated only on some runs (the right operand of a
+    short-circuiting ``and`` / ``or``, the tail of a comparison chain): a loop
+    hoisted out of it runs on every one, so only a reduction that cannot fault
+    may be fused there"""
 
     @staticmethod
     def default() -> '_Ctx':
         return _Ctx(stmts=[])
+
+
+def _is_total(e: Expr) -> bool:
+    """Whether evaluating *e* can neither fault nor be observed: variables,
+    literals, and comparisons / boolean connectives over them.  Anything that
+    indexes, calls, or rounds is assumed able to get stuck."""
+    match e:
+        case Var() | BoolVal() | RationalVal():
+            return True
+        case Compare() | And() | Or():
+            return all(_is_total(a) for a in e.args)
+        case Not():
+            return _is_total(e.arg)
+        case _:
+            return False
 
 
 class _ReduceFusionInstance(DefaultTransformVisitor):
@@ -81,6 +108,7 @@ class _ReduceFusionInstance(DefaultTransformVisitor):
 
     def __init__(self, func: FuncDef, def_use: DefineUseAnalysis):
         self.func = func
+        self.def_use = def_use
         self.gensym = Gensym(reserved=def_use.names())
 
     def apply(self) -> FuncDef:
@@ -107,8 +135,28 @@ class _ReduceFusionInstance(DefaultTransformVisitor):
             # multi-stage comps would need nested loops; leave them alone
             and len(e.arg.targets) == 1
         ):
-            return self._fuse(e, e.arg, ctx)
+            comp = e.arg
+            if not ctx.conditional or (
+                isinstance(comp.iterables[0], Var) and _is_total(comp.elt)
+            ):
+                return self._fuse(e, comp, ctx)
+            # conditionally evaluated and able to fault: leave it in place
+            return super()._visit_expr(e, None)
         return super()._visit_expr(e, ctx)
+
+    def _conditional(self, ctx: Any) -> Any:
+        """*ctx*, for a position the original evaluates only on some runs."""
+        if isinstance(ctx, _Ctx):
+            return dataclasses.replace(ctx, conditional=True)
+        return ctx
+
+    def _bound_elsewhere(self, name: NamedId) -> bool:
+        """Whether *name* is bound by anything but a comprehension: an
+        argument, a free variable, an assignment, a loop or a ``with``."""
+        return any(
+            not isinstance(getattr(d, 'site', None), ListComp)
+            for d in self.def_use.name_to_defs.get(name, ())
+        )
 
     def _fuse(self, e: 'AnyOf | AllOf', comp: ListComp, ctx: _Ctx) -> Expr:
         """Emit the seed + loop into *ctx* and return ``Var(acc)``."""
@@ -123,6 +171,25 @@ class _ReduceFusionInstance(DefaultTransformVisitor):
         target = self._visit_binding(comp.targets[0], ctx)
         elt_expr = self._visit_expr(comp.elt, None)
 
+        # A comprehension target is local to the comprehension; a `for` target
+        # is an ordinary assignment.  A target that shares its name with a
+        # variable of the function would overwrite it, so it gets a fresh one.
+        rename = {
+            name: self.gensym.refresh(name)
+            for name in target.names() if self._bound_elsewhere(name)
+        }
+        if rename:
+            renamed = RenameTarget.apply_block(
+                StmtBlock([ForStmt(target, iterable, StmtBlock([
+                    Assign(elt, None, elt_expr, e.loc)
+                ]), e.loc)]),
+                rename,
+            ).stmts[0]
+            assert isinstance(renamed, ForStmt)
+            # the iterable is evaluated outside the comprehension's scope
+            target = renamed.target
+            elt_expr = renamed.body.stmts[0].expr
+
         op = Or if is_any else And
         combine = op([Var(acc, e.loc), Var(elt, e.loc)], e.loc)
         body = StmtBlock([
@@ -135,6 +202,36 @@ class _ReduceFusionInstance(DefaultTransformVisitor):
         ctx.stmts.append(Assign(acc, None, BoolVal(not is_any, e.loc), e.loc))
         ctx.stmts.append(ForStmt(target, iterable, body, e.loc))
         return Var(acc, e.loc)
+
+    # ------------------------------------------------------------------
+    # Positions evaluated more than once, or not always: a hoisted loop runs
+    # exactly once.
+
+    def _visit_while(self, stmt: WhileStmt, ctx: Any):
+        # the test runs before every iteration, so a reduction in it cannot
+        # move in front of the loop
+        cond = self._visit_expr(stmt.cond, None)
+        body, _ = self._visit_block(stmt.body, ctx)
+        return WhileStmt(cond, body, stmt.loc), ctx
+
+    def _visit_naryop(self, e: NaryOp, ctx: Any):
+        if isinstance(e, (And, Or)) and e.args:
+            # `and` / `or` short-circuit: only the first operand always runs
+            rest = self._conditional(ctx)
+            args = [self._visit_expr(e.args[0], ctx)]
+            args += [self._visit_expr(arg, rest) for arg in e.args[1:]]
+            return type(e)(args, e.loc)
+        return super()._visit_naryop(e, ctx)
+
+    def _visit_compare(self, e: Compare, ctx: Any):
+        # a chain is the conjunction of its adjacent tests: operands past the
+        # second are reached only while every earlier test holds
+        rest = self._conditional(ctx)
+        args = [
+            self._visit_expr(arg, ctx if i < 2 else rest)
+            for i, arg in enumerate(e.args)
+        ]
+        return Compare(e.ops, args, e.loc)
 
     # ------------------------------------------------------------------
     # Positions with no statement-level slot: suppress fusion.
